@@ -8,8 +8,8 @@
    call) and of reload() (initiate - ok or error -, Lock, Close of every old sink, Shutdown, completeRenewal,
    NewSink for every old sink), of any length.  [grun] additionally checks the assumption reloadable.go makes
    on its callers at every NewSink: the client number is below MaxClientNumber and no other open (or
-   opening) sink has it. *)
-From SV Require Import Model.Common Model.Reload Spec.ReloadSpec Proofs.ReloadLists Proofs.ReloadInv Proofs.ReloadProofs.
+   opening) sink has it.  [lrun] is a run of the model of the TCP listener, the only caller. *)
+From SV Require Import Model.Common Model.Reload Spec.ReloadSpec Proofs.ReloadLists Proofs.ReloadInv Proofs.ReloadProofs Proofs.ReloadListener.
 From Coq Require Import Permutation.
 Local Open Scope nat_scope.
 
@@ -114,17 +114,56 @@ Theorem C17_stale_sink_excluded :
 Proof. exact stale_sink_excluded_lemma. Qed.
 Print Assumptions C17_stale_sink_excluded.
 
-(* Defect 14 (known finding, current code): the uniqueness of client numbers is an assumption the TCP
-   listener itself can violate.  In a run of the listener model that respects the kernel's rule (a
-   descriptor number is handed out only while it is free) the closer goroutine closes the descriptor before
-   the connection goroutine's final Flush and deferred Close; a new connection gets the same number.
-   Result: panic (nil sink) in the new connection's Accept, record 3 lost, record 1 left in a sink that
-   nothing will ever flush. *)
+(* The assumption is met by the only caller there is: in EVERY run of the model of the TCP listener (current
+   code: the descriptor is closed after the sink, no connection is served after a stop request; any number
+   of connections, stop request at any moment, the kernel hands out any free descriptor number) the calls
+   the listener makes on reloadable.go form a guarded run.  So the theorems above hold for the agent's
+   listener + reloadable orchestrator with no hypothesis on numbering left - including the reuse of a
+   client slot by a new connection. *)
+Theorem C17_listener_respects_unique_numbers :
+  forall (nthr maxn : nat) (levs : list levent) (ls : lstate),
+  lrun true true (linit nthr maxn) levs = Some ls ->
+  grun true (init nthr maxn) (api_events levs) = Some (l_st ls).
+Proof. exact listener_safe_lemma. Qed.
+Print Assumptions C17_listener_respects_unique_numbers.
+
+Theorem C17_listener_no_record_to_dead_pipeline :
+  forall (nthr maxn : nat) (levs : list levent) (ls : lstate),
+  lrun true true (linit nthr maxn) levs = Some ls -> log_ok (st_log (l_st ls)).
+Proof.
+  intros nthr maxn levs ls H.
+  exact (no_dead_pipeline_lemma nthr maxn (api_events levs) (l_st ls) (listener_safe_lemma nthr maxn levs ls H)).
+Qed.
+Print Assumptions C17_listener_no_record_to_dead_pipeline.
+
+Theorem C17_listener_no_loss :
+  forall (nthr maxn : nat) (levs : list levent) (ls : lstate) (r : rec),
+  lrun true true (linit nthr maxn) levs = Some ls ->
+  cnt r (delivered_recs (st_log (l_st ls))) + cnt r (buffered (l_st ls)) + cnt r (inflight (l_st ls)) =
+  cnt r (acc_of_events (api_events levs)).
+Proof.
+  intros nthr maxn levs ls r H.
+  exact (no_loss_count_lemma nthr maxn (api_events levs) (l_st ls) r (listener_safe_lemma nthr maxn levs ls H)).
+Qed.
+Print Assumptions C17_listener_no_loss.
+
+(* Defect 14 (fixed in /repo): with the ORIGINAL listener ([lstep false]) the uniqueness of client numbers
+   was violated by the listener itself.  In a run that respects the kernel's rule (a descriptor number is
+   handed out only while it is free) the closer goroutine closes the descriptor before the connection
+   goroutine's final Flush and deferred Close; a new connection gets the same number.  Result: panic (nil
+   sink) in the new connection's Accept, record 3 lost, record 1 left in a sink that nothing will ever flush. *)
 Theorem C17_slot_reuse_refuted :
-  exists ls, lrun true (linit 2 1) slot_reuse_run = Some ls /\
+  exists ls, lrun false true (linit 2 1) slot_reuse_run = Some ls /\
              In (OPanic 1 2 [3%N]) (st_log (l_st ls)) /\
              (exists d, nth_error (st_sinks (l_st ls)) 0 = Some d /\ ds_pending d = [1%N] /\ ds_closed d = false) /\
              slot (l_st ls) 0 = None /\
              ~ In 1%N (delivered_recs (st_log (l_st ls))).
 Proof. exact slot_reuse_refuted_lemma. Qed.
 Print Assumptions C17_slot_reuse_refuted.
+
+(* ... and the current listener cannot close the descriptor at that point. *)
+Theorem C17_slot_reuse_excluded :
+  lrun true true (linit 2 1)
+    [LConnOpen 0 0; LApi (ENewEnd 0); LApi (EAccBegin 0 [1%N]); LApi (EAccEnd 0); LAbort 0; LFdClosed 0] = None.
+Proof. exact slot_reuse_excluded_lemma. Qed.
+Print Assumptions C17_slot_reuse_excluded.
